@@ -15,7 +15,7 @@ ID = "C13"
 MIN_NONTRIVIAL = 0.3
 RULE = ("Hypothesis: mido files with ticks_per_beat from {24,48,96,120,192,240,384,480,960,1000,25,7} or random 1..2000, 1-5 tracks "
         "built as delta-time event walks (so any delta pattern occurs, incl. a 'drift' class of 100-300 sub-tick deltas and a 'far' class with events up to 400 beats apart, i.e. 10^5..10^6 file ticks into the track): notes on "
-        "channels 0-2 x 3 pitches, well-formed per track, each at least 1.5 library ticks long, note-off encoded as note_off or "
+        "channels 0-2 x 3 pitches, well-formed per track (a fraction of the tracks additionally carries note-offs that close nothing and notes that are never closed; neither may contribute or remove sound), each at least 1.5 library ticks long, note-off encoded as note_off or "
         "note_on velocity 0; time/key signatures (only key names KeyKeyMapping lists) at least 2 library ticks apart per kind "
         "over the whole file; tempo/text meta messages and control/program changes carrying delta time. Groupings: disjoint "
         "non-empty groups over a subset of the tracks, any subset as meta indices, any valid target index; a quarter of the "
@@ -64,6 +64,9 @@ def _case(draw):
             if act == "on" and (ch, p) not in sounding:
                 sounding[(ch, p)] = t
                 events.append([d, "on", ch, p, draw(st.integers(1, 127))])
+            elif act == "off" and (ch, p) not in sounding and draw(st.integers(0, 4)) == 0:
+                # ill-formed track: a note-off for a key that is not sounding in this track (closes nothing)
+                events.append([d, "stray_off", ch, p, draw(st.integers(0, 1))])
             elif act == "off" and sounding:
                 k = draw(st.sampled_from(sorted(sounding)))
                 if t - sounding[k] >= minlen:
@@ -83,7 +86,10 @@ def _case(draw):
                 events.append([d, "pc", ch, draw(st.integers(0, 127))])
             else:
                 events.append([d, "tempo" if act == "tempo" else "text"])
+        leave_open = draw(st.integers(0, 5)) == 0       # ill-formed track: some notes are never closed
         for k in sorted(sounding):
+            if leave_open and draw(st.booleans()):
+                continue
             d = max(0, minlen - (t - sounding[k])) + draw(st.integers(0, 5))
             t += d
             events.append([d, "off", k[0], k[1], draw(st.integers(0, 1))])
@@ -121,7 +127,7 @@ def _mido_file(case):
             d, kind = e[0], e[1]
             if kind == "on":
                 tr.append(mido.Message("note_on", channel=e[2], note=e[3], velocity=e[4], time=d))
-            elif kind == "off":
+            elif kind in ("off", "stray_off"):
                 if e[4]:
                     tr.append(mido.Message("note_on", channel=e[2], note=e[3], velocity=0, time=d))
                 else:
@@ -167,6 +173,8 @@ def check(case):
                 open_[(e[2], e[3])] = x
             elif e[1] == "off":
                 notes.append((e[2], e[3], open_.pop((e[2], e[3])), x))
+            elif e[1] == "stray_off":
+                pass        # closes nothing in its own track and must not touch another track's note
             elif e[1] == "ts":
                 sigs.append((x, O.TS, (e[2], e[3])))
             elif e[1] == "ks":
